@@ -9,6 +9,9 @@ CONSTANTS
   StoreIn = FALSE
   InPlace = FALSE
   ReadEdits = FALSE
+  FirstWriteKeeps = FALSE
+  HookEditsOld = FALSE
+  InitKinds = {"absent", "present"}
   NCases = 0
   MinOps = 1
   MaxOps = 1
